@@ -29,7 +29,7 @@ META = {
 
 def build(pools, edges, st, planned, inpool, ests):
     planned = [wit.concretize(q, 0, 2) for q in planned]       # str() of a symbolic int (machine ids) would fork per digit
-    env, c = new_cluster(N, start=False)
+    env, c = new_cluster(N, bws=[10, 40, 10, 20][:N], start=False)      # unequal bandwidths, not in descending order
     r = c._resources
     r['available'] = []
     for i, m in enumerate(c.machines):
